@@ -125,10 +125,7 @@ func main() {
 		b.cleanup()
 		fatal2("%v", err)
 	}
-	if b.cliSkipped != "" {
-		cliEnabled = false
-		fmt.Printf("scenario C (the real cmd/php-parser under simulation) is skipped: %s\n", b.cliSkipped)
-	}
+	applyBuildLimits(b)
 	fmt.Printf("built instrumented simnode in %.1fs: %d yield sites, knob %v, sync rewritten in %v, go statements %v, channel ops wrapped %d, not wrappable %v\n",
 		b.wall.Seconds(), len(b.instr.Sites), b.instr.Knob, b.instr.SyncRewrite, b.instr.GoStmts, len(b.instr.ChanWrapped), b.instr.ChanOps)
 	code := 0
@@ -164,6 +161,26 @@ func main() {
 	}
 	b.cleanup()
 	os.Exit(code)
+}
+
+// applyBuildLimits switches off what this tree's build could not provide.
+func applyBuildLimits(b *build) {
+	if b.cliSkipped != "" {
+		cliEnabled = false
+		fmt.Printf("scenario C (the real cmd/php-parser under simulation) is skipped: %s\n", b.cliSkipped)
+	}
+	for _, st := range b.instr.Knob {
+		if st != "var" && b.knobNote == "" {
+			b.knobNote = "block-size knob unavailable: no `const DefaultBlockSize = ...` declaration found in the pools"
+		}
+	}
+	if len(b.instr.Knob) < 2 && b.knobNote == "" {
+		b.knobNote = "block-size knob unavailable: pool files not found"
+	}
+	if b.knobNote != "" {
+		knobEnabled = false
+		fmt.Println(b.knobNote)
+	}
 }
 
 func envOr(k, d string) string {
@@ -283,7 +300,11 @@ func sampleOf(r runOut) map[string]interface{} {
 			for _, p := range t.Pipelines {
 				var ops []string
 				for _, o := range p.Ops {
-					ops = append(ops, o.Kind)
+					if o.Fault != nil {
+						ops = append(ops, fmt.Sprintf("%s[%s @%d]", o.Kind, o.Fault.Kind, o.Fault.At))
+					} else {
+						ops = append(ops, o.Kind)
+					}
 				}
 				ts = append(ts, fmt.Sprintf("task %d: parse(input %d, shared-version %v) -> %s", ti, p.Input, p.ShareVersion, strings.Join(ops, ",")))
 			}
